@@ -11,7 +11,9 @@ Definition WinOK (sz : Z) (A : list Z) (ow : option rw) : Prop :=
 Definition DiskOK (sz : Z) (d : disk) (A : list Z) : Prop := WinOK sz A (load_window sz d).
 Definition ProcOK (sz : Z) (p : proc) (d : disk) (A : list Z) : Prop :=
   size (uc p) = sz /\ echo_recovery (uc p) <> None /\ WinOK sz A (window (uc p)) /\
-  (if wpers p then load_window sz d = window (uc p) \/ load_window sz d = None else load_window sz d = None).
+  (* flag set: an uninitialised live window means an uninitialised window on disk (the live window may be ahead of the file after a
+     failed write, never behind what DiskOK demands); flag cleared: the file says "unknown" *)
+  (if wpers p then window (uc p) = None -> load_window sz d = None else load_window sz d = None).
 Definition ROK (w : world) (A : list Z) : Prop :=
   0 < w_size w /\ DiskOK (w_size w) (w_disk w) A /\
   match w_proc w with Some p => ProcOK (w_size w) p (w_disk w) A | None => True end.
@@ -124,12 +126,12 @@ Definition acc_of (ev : event) (o : output) : list Z :=
    the Echo value of this lifetime cannot occur in a message created before it) *)
 Definition echo_cond (w : world) (A : list Z) (ev : event) : Prop :=
   match ev, w_proc w with
-  | Unprotect r _, Some p => window (uc p) = None -> echo r = echo_recovery (uc p) -> authentic r = true ->
-                             forall m, In m A -> m < seqno r
+  | Unprotect r _, Some p | UnprotectFails r _, Some p =>
+      window (uc p) = None -> echo r = echo_recovery (uc p) -> authentic r = true -> forall m, In m A -> m < seqno r
   | _, _ => True
   end.
 Definition ev_ok2 (ev : event) : Prop :=
-  match ev with Unprotect r _ => 0 <= seqno r | ProtectFails _ | UnprotectFails _ _ => False | _ => True end.
+  match ev with Unprotect r _ | UnprotectFails r _ => 0 <= seqno r | _ => True end.
 
 Lemma WinOK_nil_to sz A ow : WinOK sz A ow -> WinOK sz [] ow.
 Proof. destruct ow; cbn; [|auto]. intros (H1 & H2 & _). split; [exact H1|]. split; [exact H2|]. intros n []. Qed.
@@ -203,13 +205,13 @@ Proof.
       rewrite Hnil in *. rewrite app_nil_r in *.
       split.
       { split; [cbn; congruence|]. split; [cbn; congruence|]. split; [cbn; exact HwA|]. cbn [wpers set_uc uc].
-        rewrite (Hna Hne). exact Hrel. }
+        rewrite (Hna Hne). destruct (wpers p); [intros Hc; discriminate|exact Hrel]. }
       split; [exact HD|]. split; [exact Hnotin|]. intros ->. congruence.
   - (* uninitialised window: nothing is written; the disk says unknown / null already *)
-    assert (Hlw : load_window sz d = None) by (destruct (wpers p); [destruct Hrel; congruence|exact Hrel]).
+    assert (Hlw : load_window sz d = None) by (destruct (wpers p); [exact (Hrel eq_refl)|exact Hrel]).
     cbv zeta. split.
     { split; [cbn; congruence|]. split; [cbn; congruence|]. split; [cbn; exact HwA|]. cbn [wpers set_uc].
-      destruct (wpers p); [right; exact Hlw|exact Hlw]. }
+      destruct (wpers p); [intros _; exact Hlw|exact Hlw]. }
     split; [unfold DiskOK; rewrite Hlw; exact I|]. split; [exact Hnotin|]. intros _ H. congruence.
 Qed.
 
@@ -242,11 +244,42 @@ Proof.
   split; [|unfold DiskOK; rewrite Hlw; exact HD].
   split; [reflexivity|]. split; [cbn; discriminate|]. split; [cbn [load uc window]; rewrite Hlw; exact HD|].
   cbn [load wpers uc window]. unfold load_wpers, load_window. cbn [fs_create_lock d_seq].
-  destruct (d_seq d) as [f|]; [|left; reflexivity]. destruct (sf_recv f); [reflexivity|left; reflexivity].
+  destruct (d_seq d) as [f|]; [|auto]. destruct (sf_recv f); auto.
 Qed.
 
 Lemma ROK_nil_app w A : ROK w A -> ROK w (A ++ []).
 Proof. rewrite app_nil_r. auto. Qed.
+
+(* ---------- _store raising OSError: rolled back, sequence.json untouched ---------- *)
+Lemma nsn_fails_same p d k :
+  match new_sequence_number_fails p d k with
+  | (p', d', _) => uc p' = uc p /\ wpers p' = wpers p /\ pend p' = pend p /\ d_seq d' = d_seq d
+  end.
+Proof.
+  unfold new_sequence_number_fails. destruct (ssn p >=? MAX_SEQNO); [auto|].
+  unfold post_seqnoincrease_fails. cbn [ssn persisted chunk limit set_ssn].
+  destruct (ssn p + 1 >? persisted p); cbn; auto using (proj1 (store_fails_keeps _ _ _)).
+Qed.
+Lemma nsn_fails_rok sz p d k A : ProcOK sz p d A -> DiskOK sz d A ->
+  match new_sequence_number_fails p d k with (p', d', _) => ProcOK sz p' d' A /\ DiskOK sz d' A end.
+Proof.
+  intros HP HD. pose proof (nsn_fails_same p d k) as H.
+  destruct (new_sequence_number_fails p d k) as [[p' d'] r]. destruct H as (Hu & Hw & _ & Hseq).
+  assert (Hlw : load_window sz d' = load_window sz d) by (apply load_window_ext; unfold drecv; rewrite Hseq; reflexivity).
+  split; [|unfold DiskOK; rewrite Hlw; exact HD].
+  unfold ProcOK in *. rewrite Hu, Hw, Hlw. exact HP.
+Qed.
+(* unprotect with a failing _store: unless the strike-out callback reaches _store it is an ordinary unprotect *)
+Lemma unprotect_fails_cases p d k r :
+  let o := snd (unprotect_request (uc p) r) in let c' := fst (unprotect_request (uc p) r) in
+  if strikes (uc p) o && wpers p
+  then unprotect_fails p d k r = (set_uc p c', _store_fails (set_wpers (set_uc p c') false) d k, Exn OSError)
+  else unprotect_fails p d k r = unprotect p d None r.
+Proof.
+  cbv zeta. unfold unprotect_fails, unprotect. destruct (unprotect_request (uc p) r) as [c' o]. cbn [fst snd wpers set_uc].
+  destruct (strikes (uc p) o); cbn [andb]; [|reflexivity].
+  unfold _replay_window_changed. cbn [wpers set_uc]. destruct (wpers p); reflexivity.
+Qed.
 
 (* ---------- one event ---------- *)
 Lemma step_rok w ev A : ROK w A -> ev_ok2 ev -> echo_cond w A ev ->
@@ -283,8 +316,39 @@ Proof.
       * pose proof (nsn_rok (w_size w) p (w_disk w) a A Hs HP HD) as H.
         destruct (new_sequence_number p (w_disk w) a) as [[p1 d1] [v|e|]]; cbn [acc_of]; rewrite app_nil_r;
           (split; [|intros ? []]); (split; [exact Hs|]); cbn [w_size w_disk w_proc mkw]; try tauto.
-    + destruct Hok.
-    + destruct Hok.
+    + pose proof (nsn_fails_rok (w_size w) p (w_disk w) k A HP HD) as H.
+      destruct (new_sequence_number_fails p (w_disk w) k) as [[p1 d1] [v|e|]]; cbn [acc_of]; rewrite app_nil_r;
+        (split; [|intros ? []]); (split; [exact Hs|]); cbn [w_size w_disk w_proc mkw]; tauto.
+    + pose proof (unprotect_fails_cases p (w_disk w) k r) as Hc. cbv zeta in Hc.
+      destruct (strikes (uc p) (snd (unprotect_request (uc p) r)) && wpers p) eqn:Esw.
+      * (* the write fails: the request is not accepted; the live window has the number struck, the file is as before *)
+        rewrite Hc. cbn [acc_of]. rewrite app_nil_r. split; [|intros ? []]. split; [exact Hs|]. cbn [w_size w_disk w_proc mkw].
+        assert (Hlw : load_window (w_size w) (_store_fails (set_wpers (set_uc p (fst (unprotect_request (uc p) r))) false) (w_disk w) k) = load_window (w_size w) (w_disk w))
+          by (apply load_window_ext; unfold drecv; rewrite (proj1 (store_fails_keeps _ _ _)); reflexivity).
+        split; [unfold DiskOK; rewrite Hlw; exact HD|].
+        apply andb_prop in Esw as [Est Ewp].
+        destruct HP as (Hsz & He & Hw & Hrel).
+        pose proof (WinOK_ctxinv (w_size w) A (uc p) Hs Hsz Hw) as HI.
+        pose proof (unprotect_step (uc p) r HI Hok) as Hst.
+        destruct (unprotect_request (uc p) r) as [c' o]. cbn [fst snd] in *. destruct Hst as (HI' & Hsz' & He' & Hmono & Hacc & _).
+        unfold strikes in Est. destruct (window (uc p)) as [w0|] eqn:Ew0; [|discriminate].
+        split; [cbn; congruence|]. split; [cbn; congruence|]. split.
+        -- cbn [uc set_uc set_pend]. unfold WinOK. destruct (window c') as [w'|] eqn:Ew'; [|exact I].
+           destruct HI' as (_ & HI'w). rewrite Ew' in HI'w. destruct HI'w as (Hinv & Hrs).
+           split; [exact Hinv|]. split; [congruence|]. destruct Hw as (_ & _ & Hsub). intros m Hm.
+           assert (Hcs : cseen (uc p) m) by (unfold cseen; rewrite Ew0; apply Hsub; exact Hm).
+           apply Hmono in Hcs. unfold cseen in Hcs. rewrite Ew' in Hcs. exact Hcs.
+        -- cbn [wpers set_uc set_pend uc]. rewrite Ewp, Hlw. intros Hc'. exfalso.
+           destruct o; try discriminate. destruct (Hacc eq_refl) as (_ & _ & Hcs & _). unfold cseen in Hcs. rewrite Hc' in Hcs. exact Hcs.
+      * rewrite Hc.
+        pose proof (unprotect_rok (w_size w) p (w_disk w) None r A Hs HP HD Hok Hecho) as H.
+        destruct (unprotect p (w_disk w) None r) as [[p1 d1] [o|e|]]; [| contradiction |].
+        -- cbv zeta in H. destruct H as (H1 & H2 & H3 & _). cbn [acc_of].
+           assert (Heq : (match o with Accept => [seqno r] | _ => [] end) = acc_of (UnprotectFails r k) (OUnprot o)) by (destruct o; reflexivity).
+           rewrite Heq in *. cbn [acc_of] in *.
+           split; [split; [exact Hs|]; cbn [w_size w_disk w_proc mkw]; tauto|].
+           intros n Hin. destruct o; try contradiction. destruct Hin as [<-|[]]. apply H3. reflexivity.
+        -- cbn [acc_of]. rewrite app_nil_r. split; [|intros ? []]. split; [exact Hs|]. cbn [w_size w_disk w_proc mkw]. tauto.
   - destruct ev as [a|n a|r a|a| |start lim echo|a|k|r k]; cbn [acc_of]; rewrite app_nil_r; (split; [|intros ? []]);
       try (split; [exact Hs|]; split; [exact HD|]; rewrite Ep; exact I).
     destruct (load_rok (w_size w) start lim echo (w_disk w) A Hs HD) as (H1 & H2).
@@ -405,7 +469,7 @@ Definition EchoIn (E : Z -> Prop) (w : world) : Prop :=
 Definition ev_noecho (E : Z -> Prop) (ev : event) : Prop :=
   match ev with
   | Reload _ _ e => E e
-  | Unprotect r _ => forall e, E e -> echo r <> Some e
+  | Unprotect r _ | UnprotectFails r _ => forall e, E e -> echo r <> Some e
   | _ => True
   end.
 
@@ -441,8 +505,13 @@ Proof.
     + destruct (pend p) as [[n [|]]|]; [cbn; exact HE| |];
         (pose proof (nsn_disk p (w_disk w) a) as H; destruct (new_sequence_number p (w_disk w) a) as [[p1 d1] [v|e|]];
          destruct H as (Hu & _); cbn [fst w_proc mkw]; try exact I; rewrite Hu; exact HE).
-    + destruct Hok.
-    + destruct Hok.
+    + pose proof (nsn_fails_same p (w_disk w) k) as H. destruct (new_sequence_number_fails p (w_disk w) k) as [[p1 d1] [v|e|]];
+        destruct H as (Hu & _); cbn [fst w_proc mkw]; try exact I; rewrite Hu; exact HE.
+    + destruct HP as (Hsz & He & Hw & _).
+      pose proof (WinOK_ctxinv (w_size w) A (uc p) Hs Hsz Hw) as HI.
+      pose proof (unprotect_step (uc p) r HI Hok) as Hst.
+      unfold unprotect_fails. destruct (unprotect_request (uc p) r) as [c' o]. destruct Hst as (_ & _ & Hech & _).
+      destruct (strikes (uc p) o && wpers (set_uc p c')); cbn [fst w_proc mkw]; cbn; rewrite Hech; exact HE.
   - destruct ev as [a|n a|r a|a| |start lim echo|a|k|r k]; cbn [fst]; try (rewrite Ep; exact I).
     cbn. exists echo. split; [reflexivity|exact Hev].
 Qed.
@@ -453,9 +522,9 @@ Proof.
   induction evs as [|ev r IH]; intros w A HR Hok HE Hne; cbn [fresh_echo_run]; [exact I|].
   inversion Hok as [|? ? He Hr]; subst. inversion Hne as [|? ? Hn Hnr]; subst.
   assert (Hc : echo_cond w A ev).
-  { unfold echo_cond. destruct ev; try exact I. destruct (w_proc w) as [p|] eqn:Ep; [|exact I].
-    intros _ Hecho _. unfold EchoIn in HE. rewrite Ep in HE. destruct HE as (e & He1 & He2).
-    cbn in Hn. exfalso. apply (Hn e He2). congruence. }
+  { unfold echo_cond. destruct ev; try exact I; (destruct (w_proc w) as [p|] eqn:Ep; [|exact I];
+    intros _ Hecho _; unfold EchoIn in HE; rewrite Ep in HE; destruct HE as (e & He1 & He2);
+    cbn in Hn; exfalso; apply (Hn e He2); congruence). }
   split; [exact Hc|].
   pose proof (step_rok w ev A HR He Hc) as Hs. pose proof (step_echoin E w ev A HR He HE Hn) as HE1.
   destruct (step w ev) as [w1 o]. cbn [fst snd] in *. destruct Hs as (HR1 & _).
@@ -468,4 +537,16 @@ Theorem accepted_nodup_without_echo E sz seq evs : 0 < sz -> disk_wf sz seq -> F
 Proof.
   intros Hs Hwf Hok Hne. apply accepted_nodup; [apply initial_rok; assumption|exact Hok|].
   eapply noecho_fresh; [apply initial_rok; assumption|exact Hok|exact I|exact Hne].
+Qed.
+
+(* a write that fails inside the strike-out callback: the request is not accepted, the flag is set again (so the next change of
+   the window tries the write again) and sequence.json is what it was *)
+Theorem unprotect_fails_rolled_back p d k r :
+  strikes (uc p) (snd (unprotect_request (uc p) r)) = true -> wpers p = true ->
+  match unprotect_fails p d k r with
+  | (p', d', res) => res = Exn OSError /\ wpers p' = true /\ d_seq d' = d_seq d /\ d_durable d' = d_durable d
+  end.
+Proof.
+  intros Hs Hw. pose proof (unprotect_fails_cases p d k r) as Hc. cbv zeta in Hc. rewrite Hs, Hw in Hc. cbn [andb] in Hc.
+  rewrite Hc. split; [reflexivity|]. split; [exact Hw|]. apply store_fails_keeps.
 Qed.
